@@ -994,9 +994,16 @@ def compose_variants(spec):
 
 
 def gen_ops(spec, opname):
-    """C++ source of the op(s) of one expression"""
+    """C++ source of the op(s) of one expression: <op> (variants / operands+graph), <op>x (apply, kind C), <op>r (the direct view call alone:
+    a case whose reference dies or is Nothing is not a C14 case)"""
     trees, _ = spec_tree(spec)
     lines = []
+    if len(trees) == 1 and not is_leaf(trees[0]):
+        lines.append("VH_OP(%sr)\n{" % opname)
+        lines += _decls(spec)
+        lines.append("    auto ref = %s;" % view_expr(trees[0]))
+        lines.append('    out.tok("REF1"); c14::emit_result(out, ref, ref, lv);')
+        lines.append("}")
     if spec["t"] in ("A", "B"):
         lines.append("VH_OP(%s)\n{" % opname)
         lines += _decls(spec)
